@@ -1417,6 +1417,30 @@ fn check(ctx: &Ctx) -> i32 {
         check_c_inner(&place(&spelled, 0), l)
     });
 
+    // two and three arguments, each in every spelling: state of the argument splitter (the current
+    // separator / quote, pending escapes) must not leak from one argument into the next
+    const PAIR_ALPHA: [&str; 5] = ["a", ",", "\\", "'", "\""];
+    const THIRD: [&str; 5] = ["", "z", "'q'", "b\\,c", "\"x,y\""];
+    let mut spelled_args: Vec<String> = vec![];
+    for k in 0..count_strings_upto(PAIR_ALPHA.len() as u64, 2) {
+        let t = nth_string(k, &PAIR_ALPHA);
+        for style in 0..STYLES.len() {
+            if let Some(x) = spell(&t, style) {
+                if !spelled_args.contains(&x) {
+                    spelled_args.push(x);
+                }
+            }
+        }
+    }
+    let na = spelled_args.len() as u64;
+    ctx.bound("c_pair_spelled_arguments", na);
+    ctx.bound("c_pair_third_argument", json!(THIRD));
+    ctx.par_range("c-argument-pairs", na * na * THIRD.len() as u64, 64, |i, l| {
+        let (a, b, t) = ((i % na) as usize, (i / na % na) as usize, (i / na / na) as usize);
+        let inner = if THIRD[t].is_empty() { format!("fs, {}, {}", spelled_args[a], spelled_args[b]) } else { format!("fs, {}, {}, {}", spelled_args[a], spelled_args[b], THIRD[t]) };
+        check_c_inner(&inner, l)
+    });
+
     // ---- (d) ----
     let nb = BODIES.len() as u64;
     ctx.bound("d_bodies", json!(BODIES));
